@@ -15,26 +15,36 @@ Section safety.
   Lemma deliver_pub_pool s w d ps :
     Inv J E s → list_remove (EPub w d) (pool s) = Some ps →
     (∀ e, e ∈ ps → e ∈ pool s) ∧ NoDup (pub_ds ps) ∧ NoDup (pay_ds ps) ∧
-    (d ≠ last_out J d.1 → ∀ w' t, EPub w' (last_out J t) ∈ pool s → EPub w' (last_out J t) ∈ ps).
+    (d ≠ last_out J d.1 → ∀ w' t, EPub w' (last_out J t) ∈ pool s → EPub w' (last_out J t) ∈ ps) ∧
+    (∀ d', d' ∈ pub_ds (pool s) → d' ∈ pub_ds ps ∨ d' = d) ∧ (∀ d', d' ∈ pay_ds (pool s) → d' ∈ pay_ds ps).
   Proof.
     intros Hinv Hrm. split; [intros y Hy; rewrite (list_remove_elem _ _ _ y Hrm); auto|].
     pose proof (remove_pub_ds _ _ _ Hrm) as Hpub. pose proof (remove_pay_ds _ _ _ Hrm) as Hpay. simpl in *.
     pose proof (i_pub_nodup _ _ _ Hinv) as H1. rewrite Hpub in H1. apply NoDup_cons in H1 as [_ H1].
     pose proof (i_pay_nodup _ _ _ Hinv) as H2. rewrite Hpay in H2.
-    repeat split; auto. intros Hne w' t Hin. rewrite (list_remove_elem _ _ _ _ Hrm) in Hin.
-    destruct Hin as [Heq|?]; [|done]. exfalso. injection Heq as _ Heq. apply Hne. rewrite <- Heq. reflexivity.
+    split; [done|]. split; [done|]. split.
+    { intros Hne w' t Hin. rewrite (list_remove_elem _ _ _ _ Hrm) in Hin.
+      destruct Hin as [Heq|?]; [|done]. exfalso. injection Heq as _ Heq. apply Hne. rewrite <- Heq. reflexivity. }
+    split.
+    - intros d' Hd'. rewrite Hpub in Hd'. apply elem_of_cons in Hd' as [?|?]; auto.
+    - intros d' Hd'. by rewrite Hpay in Hd'.
   Qed.
 
   Lemma deliver_xfer_pool s h d ps :
     Inv J E s → list_remove (EXfer h d) (pool s) = Some ps →
     (∀ e, e ∈ ps → e ∈ pool s) ∧ NoDup (pub_ds ps) ∧ NoDup (pay_ds ps) ∧
-    (∀ w' t, EPub w' (last_out J t) ∈ pool s → EPub w' (last_out J t) ∈ ps).
+    (∀ w' t, EPub w' (last_out J t) ∈ pool s → EPub w' (last_out J t) ∈ ps) ∧
+    (∀ d', d' ∈ pub_ds (pool s) → d' ∈ pub_ds ps ∨ d' = d) ∧ (∀ d', d' ∈ pay_ds (pool s) → d' ∈ pay_ds ps).
   Proof.
     intros Hinv Hrm. split; [intros y Hy; rewrite (list_remove_elem _ _ _ y Hrm); auto|].
     pose proof (remove_pub_ds _ _ _ Hrm) as Hpub. pose proof (remove_pay_ds _ _ _ Hrm) as Hpay. simpl in *.
     pose proof (i_pub_nodup _ _ _ Hinv) as H1. rewrite Hpub in H1.
     pose proof (i_pay_nodup _ _ _ Hinv) as H2. rewrite Hpay in H2.
-    repeat split; auto. intros w' t Hin. rewrite (list_remove_elem _ _ _ _ Hrm) in Hin. by destruct Hin as [?|?].
+    split; [done|]. split; [done|]. split.
+    { intros w' t Hin. rewrite (list_remove_elem _ _ _ _ Hrm) in Hin. by destruct Hin as [?|?]. }
+    split.
+    - intros d' Hd'. left. by rewrite Hpub in Hd'.
+    - intros d' Hd'. by rewrite Hpay in Hd'.
   Qed.
 
   (* what one step can return, given the invariant *)
@@ -81,15 +91,17 @@ Section safety.
       pose proof (list_remove_in _ _ _ Hrm) as Hin.
       destruct ev as [w d|h d|d v]; simpl.
       + destruct (i_pub _ _ _ Hinv _ _ Hin) as (Hfin & Hout & Htask & Hl & h & Hh & Hst). rewrite Hh.
-        destruct (deliver_pub_pool s w d ps Hinv Hrm) as (Hsub & Hn1 & Hn2 & Hlast).
+        destruct (deliver_pub_pool s w d ps Hinv Hrm) as (Hsub & Hn1 & Hn2 & Hlast & Hpk & Hyk).
         case_bool_decide as Hlo.
         * (* last output: publication, then completion *)
           specialize (Hl Hlo).
           assert (Hinv1 : Inv J E {| ctl := publish_c J (ctl s) h d; store := store s; wq := wq s; xfers := xfers s;
                      fetches := fetches s; purges := purges s; pool := pool s; dispatched := dispatched s; finished := finished s |}).
           { apply inv_publish; auto. apply (i_pub_nodup _ _ _ Hinv). apply (i_pay_nodup _ _ _ Hinv). }
+          assert (Hseenlast : d ∈ seen (publish_c J (ctl s) h d)).
+          { destruct (publish_fields J (ctl s) h d) as (_&_&_&_&_&_&_&_&_&Ese&_). rewrite Ese. set_solver. }
           destruct (complete_c J (publish_c J (ctl s) h d) w d.1) as [c2| |e|e] eqn:Hc.
-          -- apply (inv_complete J E wf_nout _ w d.1 c2 ps Hinv1); simpl; [by rewrite <- Hlo|done].
+          -- apply (inv_complete J E wf_nout _ w d.1 c2 ps Hinv1); simpl; [by rewrite <- Hlo|by rewrite <- Hlo|done].
           -- unfold complete_c in Hc. case_bool_decide; [|done].
              destruct (ongoing _ !! w); [case_bool_decide|]; done.
           -- (* Crash in completion: excluded *)
@@ -103,7 +115,7 @@ Section safety.
              destruct (ongoing _ !! w); [case_bool_decide|]; done.
         * apply inv_publish; auto.
       + destruct (i_xev _ _ _ Hinv _ _ Hin) as [Hfin Hst].
-        destruct (deliver_xfer_pool s h d ps Hinv Hrm) as (Hsub & Hn1 & Hn2 & Hlast).
+        destruct (deliver_xfer_pool s h d ps Hinv Hrm) as (Hsub & Hn1 & Hn2 & Hlast & Hpk & Hyk).
         apply inv_publish; auto.
       + by apply inv_pay.
     - (* LFinish *)
